@@ -102,6 +102,7 @@ class StackWorld(object):
     self.current_members = set()
     self.peak_outstanding = 0
     self.heal_times = {}
+    self.hard_down = {}         # ep index -> time it crashed (connections reset, connects refused) and has not restarted since
     self.attempts = {}
     self.retry_attempts = {}
     self.clock_steps = any(f.get('do') == 'clock_step' for f in scn.get('faults', ()))
@@ -430,6 +431,7 @@ class StackWorld(object):
     if do == 'crash':
       ep.set_mode('refuse')
       ep.reset_all()
+      self.hard_down.setdefault(i, CLOCK.now)
     elif do == 'crash_blackhole':
       ep.set_mode('blackhole')
       ep.reset_all(silent=True)
@@ -438,6 +440,7 @@ class StackWorld(object):
       ep.set_mode('up')
       s.muted = False
       self.heal_times[i] = (CLOCK.now, prev)
+      self.hard_down.pop(i, None)
       # a peer that comes back answers packets on connections it no longer
       # knows with RST
       for c in ep.conns:
@@ -970,6 +973,16 @@ class StackWorld(object):
       if heal is None or self.closed_at is not None or i not in self.current_members:
         continue
       heal, prev_mode = heal
+      ap = self.cfg.get('aperture')
+      if ap and ap['min_size'] < len(self.current_members):
+        # an aperture smaller than the server set owes the healed member traffic
+        # only while no other member could serve: every other member has been
+        # unreachable from the heal to the end
+        # (crashed: connections reset and new ones refused; a member that only
+        # refuses new connections may still serve on the ones it has)
+        if any(self.hard_down.get(j, heal + 1) > heal for j in self.current_members if j != i):
+          continue
+        REC.probe('only_reachable_member_returned')
       # a connect that was black-holed is only given up by the kernel after 127 s
       # (a connect that started while the endpoint was black-holed keeps hanging
       # through later refuse/up phases: no SYN is retransmitted after 63 s)
